@@ -79,6 +79,54 @@ def isomorphism(repo, cp=None, ir=None):
     return res
 
 
+def markerror(repo):
+    """R-MARKERROR (C09): what a freshly generated parser answers on an error is what Parser.mark_error stored.  R-ERRCODES
+    decides that the shipped tables hold exactly one cell per error example; this rule decides that the generator still
+    stores one: in mark_error every `return None` (success) is directly preceded by the store of `error_code` into
+    `self.action[...][...]` / `self.default_errors[...]`, or sits under a test that compares the entry already there
+    with `error_code` for equality.  Any other silent success leaves the example unmarked, and the fresh parser answers
+    with the default message where the shipped one answers with the specific one."""
+    res = RuleResult("R-MARKERROR")
+    m = repo.mod("compiler/front_end/lr1.py")
+    f = m.funcs.get("Parser.mark_error")
+    if f is None:
+        raise AnalysisError("lr1.py: Parser.mark_error vanished")
+    code = f.node.args.args[-1].arg if f.node.args.args else None
+    for a in f.node.args.args:
+        if "code" in a.arg:
+            code = a.arg
+    stores = 0
+    for r in walk_no_nested_funcs(f.node):
+        if not (isinstance(r, ast.Return) and isinstance(r.value, ast.Constant) and r.value.value is None):
+            continue
+        res.instances += 1
+        par = m.parent(r)
+        blk = next((b for b in (getattr(par, "body", None), getattr(par, "orelse", None)) if isinstance(b, list) and r in b), None)
+        i = blk.index(r) if blk else 0
+        prev = blk[i - 1] if blk and i > 0 else None
+        if isinstance(prev, ast.Assign) and len(prev.targets) == 1 and isinstance(prev.targets[0], ast.Subscript):
+            tgt = ast.unparse(prev.targets[0])
+            val = ast.unparse(prev.value)
+            if (tgt.startswith("self.action[") and val == f"Error({code})") or (tgt.startswith("self.default_errors[") and val == code):
+                stores += 1
+                continue
+        t = par.test if isinstance(par, ast.If) and blk is par.body else None
+        if isinstance(t, ast.Compare) and len(t.ops) == 1 and isinstance(t.ops[0], ast.Eq) \
+                and code in (ast.unparse(t.left), ast.unparse(t.comparators[0])):
+            continue
+        res.add(f"lr1.py|Parser.mark_error|{ast.unparse(t)[:50] if t is not None else 'unconditional'}",
+                f"mark_error reports success under `{ast.unparse(t)[:70] if t is not None else '(no test)'}` without storing "
+                f"{code} and without finding it already stored: that error example leaves no cell in a freshly generated "
+                "parser, which then answers with another message than the shipped tables", m.rel, r.lineno, "Parser.mark_error")
+    res.instances += 1
+    if stores < 2:
+        res.add("lr1.py|Parser.mark_error|stores", f"mark_error stores the error code on {stores} path(s); there must be one for "
+                "the per-terminal cell (self.action[state][symbol] = Error(code)) and one for the default (self.default_errors[state] = code)",
+                m.rel, f.line, "Parser.mark_error")
+    res.analysed = [m.rel]
+    return res
+
+
 def error_codes(repo, cp=None):
     """Error cells of the cached module parser == cells produced by the examples."""
     res = RuleResult("R-ERRCODES")
